@@ -25,6 +25,9 @@ type Op struct {
 	Tree   int        `json:"tree,omitempty"` // Parse: slot written; Render/Walk: slot read
 	Stack  string     `json:"stack,omitempty"`
 	Ctx    bool       `json:"ctx,omitempty"`    // delegating parser.Context wrapper
+	// CtxPlain: the caller passes its own parser.NewContext() (not wrapped) and reads it after
+	// the call (references, ids), as callers that fetch metadata from the context do
+	CtxPlain bool `json:"ctx_plain,omitempty"`
 	Reader bool       `json:"reader,omitempty"` // delegating text.Reader wrapper (Parse paths)
 	Fault  *FaultPlan `json:"fault,omitempty"`
 	Aux    *Config    `json:"aux,omitempty"` // AuxConvert: configuration of the other instance
@@ -44,6 +47,9 @@ func (o Op) String() string {
 	}
 	if o.Ctx {
 		s += ",ctx"
+	}
+	if o.CtxPlain {
+		s += ",ownctx"
 	}
 	if o.Reader {
 		s += ",rd"
@@ -291,6 +297,9 @@ type OpResult struct {
 	Sink    *Sink
 	Tree    *treeHandle
 	Walked  uint64
+	// digest of the caller's own context read after the call (ops with Ctx / CtxPlain)
+	CtxDigest uint64
+	HasCtx    bool
 }
 
 func (e *Env) src(op Op) []byte {
@@ -303,11 +312,42 @@ func (e *Env) src(op Op) []byte {
 	return e.docs[op.Doc]
 }
 
-func parseOpts(op Op, y *yielder) []parser.ParseOption {
-	if op.Ctx {
-		return []parser.ParseOption{parser.WithContext(&simCtx{parser.NewContext(), y})}
+// parseOpts: the parse options of a call and, when the caller supplies its own context, that
+// context (so that the caller can look into it after the call, see inspectCtx).
+func parseOpts(op Op, y *yielder, keep *parser.Context) []parser.ParseOption {
+	switch {
+	case op.Ctx:
+		inner := parser.NewContext()
+		*keep = inner
+		return []parser.ParseOption{parser.WithContext(&simCtx{inner, y})}
+	case op.CtxPlain:
+		pc := parser.NewContext()
+		*keep = pc
+		return []parser.ParseOption{parser.WithContext(pc)}
 	}
 	return nil
+}
+
+// inspectCtx: what a caller that passed its own context reads from it after the call (link
+// references, bookkeeping). Reads only. The digest is a pure function of (configuration,
+// document) on a correct tree.
+func inspectCtx(pc parser.Context) uint64 {
+	h := uint64(0xcbf29ce484222325)
+	for _, r := range pc.References() {
+		h = hashBytes(h, r.Label())
+		h = hashBytes(h, r.Destination())
+		h = hashBytes(h, r.Title())
+		h = hashU64(h, 1)
+	}
+	h = hashU64(h, uint64(len(pc.OpenedBlocks())))
+	if pc.LastDelimiter() != nil {
+		h = hashU64(h, 2)
+	}
+	if pc.IsInLinkLabel() {
+		h = hashU64(h, 3)
+	}
+	_ = pc.IDs()
+	return h
 }
 
 func mkReader(op Op, src []byte, y *yielder) text.Reader {
@@ -339,6 +379,20 @@ func execOp(e *Env, trees map[int]*treeHandle, client, idx int, op Op, y *yielde
 		e.scratch[client] = buf
 		src = buf
 	}
+	var ownCtx parser.Context // the context this caller passed in, if any
+	defer func() {
+		if ownCtx != nil && res.Panic == "" {
+			func() {
+				defer func() {
+					if r := recover(); r != nil {
+						res.Panic = fmt.Sprintf("reading the caller's own context after the call: %v\n%s", r, debug.Stack())
+					}
+				}()
+				res.CtxDigest = inspectCtx(ownCtx)
+				res.HasCtx = true
+			}()
+		}
+	}()
 	var w io.Writer
 	needW := op.Kind != "Parse" && op.Kind != "ParseOnly" && op.Kind != "Walk" && op.Kind != "GC"
 	if needW {
@@ -351,28 +405,28 @@ func execOp(e *Env, trees map[int]*treeHandle, client, idx int, op Op, y *yielde
 	}
 	switch op.Kind {
 	case "Convert":
-		res.Err = e.md.Convert(src, w, parseOpts(op, y)...)
+		res.Err = e.md.Convert(src, w, parseOpts(op, y, &ownCtx)...)
 	case "PkgConvert":
-		res.Err = goldmark.Convert(src, w, parseOpts(op, y)...)
+		res.Err = goldmark.Convert(src, w, parseOpts(op, y, &ownCtx)...)
 	case "AuxConvert":
 		// another instance, of another configuration, living next to the one under test: it is
 		// created at its first use and kept for the rest of the run
-		res.Err = e.auxFor(client, op.Aux).Convert(src, w, parseOpts(op, y)...)
+		res.Err = e.auxFor(client, op.Aux).Convert(src, w, parseOpts(op, y, &ownCtx)...)
 	case "Parse", "ParseOnly":
-		n := e.p.Parse(mkReader(op, src, y), parseOpts(op, y)...)
+		n := e.p.Parse(mkReader(op, src, y), parseOpts(op, y, &ownCtx)...)
 		res.Tree = &treeHandle{node: n, doc: op.Doc, born: idx}
 		if trees != nil {
 			trees[op.Tree] = res.Tree
 		}
 	case "ParseRender":
-		n := e.p.Parse(mkReader(op, src, y), parseOpts(op, y)...)
+		n := e.p.Parse(mkReader(op, src, y), parseOpts(op, y, &ownCtx)...)
 		res.Tree = &treeHandle{node: n, doc: op.Doc, born: idx}
 		res.Err = e.r.Render(w, src, n)
 		res.Tree.renders++
 	case "RenderChild":
 		// Renderer.Render called directly on a subtree (the first top-level block), as callers
 		// that render fragments do
-		n := e.p.Parse(mkReader(op, src, y), parseOpts(op, y)...)
+		n := e.p.Parse(mkReader(op, src, y), parseOpts(op, y, &ownCtx)...)
 		c := n.FirstChild()
 		if c == nil {
 			res.Skipped = true
